@@ -295,7 +295,7 @@ non-trivial = a proxy is involved or the URL has >= 2 of {explicit port, IPv6, f
             HostSpec::V6(0),
             HostSpec::V6(3),
         ];
-        let ports = vec![PortSpec::None, PortSpec::ExplicitDefault, PortSpec::Other(8081)];
+        let ports = vec![PortSpec::None, PortSpec::ExplicitDefault, PortSpec::Other(8081), PortSpec::Other(80), PortSpec::Other(443)];
         let paths: Vec<Option<Vec<String>>> = vec![None, Some(vec![]), Some(vec!["a".into(), "b c".into()])];
         let queries: Vec<Option<Vec<(String, String)>>> = vec![None, Some(vec![("x".into(), "1".into()), ("y".into(), "a b".into())])];
         let frags: Vec<Option<String>> = vec![None, Some("frag".into())];
@@ -322,6 +322,11 @@ non-trivial = a proxy is involved or the URL has >= 2 of {explicit port, IPv6, f
                                                     if https && *pk != 0 && matches!(h, HostSpec::V6(_)) {
                                                         continue;
                                                     }
+                                                    // the other scheme's default port is an ordinary explicit port; this scheme's is the explicit-default case
+                                                    let p = &match *p {
+                                                        PortSpec::Other(x) if x == if https { 443 } else { 80 } => continue,
+                                                        other => other,
+                                                    };
                                                     let url = UrlSpec { https, host: h.clone(), port: *p, path: pa.clone(), query: q.clone(), fragment: f.clone(), userinfo: ui.clone() };
                                                     let proxy = match pk {
                                                         0 => None,
